@@ -18,6 +18,8 @@ type FileReader struct {
 	header        *Header
 	reader        ByteReaderResetCount
 	bufferPool    *pool.Pool
+	// directIO: the file is open with direct I/O, the position of the file may only move in whole blocks
+	directIO bool
 
 	recordHeaderCache      []byte
 	recordHeaderByteReader *checksumByteReader
@@ -159,19 +161,40 @@ func (r *FileReader) SkipNext() error {
 
 		// here we have to add the header to the offset too, otherwise we will seek not far enough
 		expectedOffset := int64(r.currentOffset + expectedBytesSkipped + (r.reader.Count() - start))
-		newOffset, err := r.file.Seek(expectedOffset, 0)
+		err = r.skipPayload(expectedBytesSkipped, expectedOffset)
 		if err != nil {
-			return fmt.Errorf("error while seeking to offset %d in '%s': %w", expectedOffset, r.file.Name(), err)
+			return err
 		}
 
-		if newOffset != expectedOffset {
-			return fmt.Errorf("seeking in '%s' did not return expected offset %d, it was %d", r.file.Name(), expectedOffset, newOffset)
-		}
-
-		r.reader.Reset(r.file)
-		r.currentOffset = uint64(newOffset)
+		r.currentOffset = uint64(expectedOffset)
 	}
 
+	return nil
+}
+
+// skipPayload moves the reader over the given number of payload bytes, which ends at the given file offset.
+func (r *FileReader) skipPayload(numBytes uint64, expectedOffset int64) error {
+	if r.directIO {
+		// a file that is open with direct I/O can only be read in whole blocks from block aligned offsets: the reader
+		// can not seek to a record boundary and continue from there, it reads over the payload instead
+		_, err := io.CopyN(io.Discard, r.reader, int64(numBytes))
+		if err != nil {
+			return fmt.Errorf("error while skipping to offset %d in '%s': %w", expectedOffset, r.file.Name(), err)
+		}
+		return nil
+	}
+
+	newOffset, err := r.file.Seek(expectedOffset, 0)
+	if err != nil {
+		return fmt.Errorf("error while seeking to offset %d in '%s': %w", expectedOffset, r.file.Name(), err)
+	}
+
+	if newOffset != expectedOffset {
+		return fmt.Errorf("seeking in '%s' did not return expected offset %d, it was %d", r.file.Name(), expectedOffset, newOffset)
+	}
+
+	// reset the buffered reader after the seek
+	r.reader.Reset(r.file)
 	return nil
 }
 
@@ -201,17 +224,10 @@ func SkipNextV1(r *FileReader) error {
 	}
 
 	expectedOffset := int64(r.currentOffset + expectedBytesSkipped)
-	newOffset, err := r.file.Seek(expectedOffset, 0)
+	err = r.skipPayload(expectedBytesSkipped, expectedOffset)
 	if err != nil {
-		return fmt.Errorf("error while seeking to offset %d in '%s': %w", expectedOffset, r.file.Name(), err)
+		return err
 	}
-
-	if newOffset != expectedOffset {
-		return fmt.Errorf("seeking in '%s' did not return expected offset %d, it was %d", r.file.Name(), expectedOffset, newOffset)
-	}
-
-	// reset the buffered reader after the seek
-	r.reader.Reset(r.file)
 
 	r.currentOffset = r.currentOffset + expectedBytesSkipped
 	return nil
@@ -231,17 +247,12 @@ func SkipNextV2(r *FileReader) error {
 
 	// here we have to add the header to the offset too, otherwise we will seek not far enough
 	expectedOffset := int64(r.currentOffset + expectedBytesSkipped + (r.reader.Count() - start))
-	newOffset, err := r.file.Seek(expectedOffset, 0)
+	err = r.skipPayload(expectedBytesSkipped, expectedOffset)
 	if err != nil {
-		return fmt.Errorf("error while seeking to offset %d in '%s': %w", expectedOffset, r.file.Name(), err)
+		return err
 	}
 
-	if newOffset != expectedOffset {
-		return fmt.Errorf("seeking in '%s' did not return expected offset %d, it was %d", r.file.Name(), expectedOffset, newOffset)
-	}
-
-	r.reader.Reset(r.file)
-	r.currentOffset = uint64(newOffset)
+	r.currentOffset = uint64(expectedOffset)
 	return nil
 }
 
@@ -259,17 +270,12 @@ func SkipNextV3(r *FileReader) error {
 
 	// here we have to add the header to the offset too, otherwise we will seek not far enough
 	expectedOffset := int64(r.currentOffset + expectedBytesSkipped + (r.reader.Count() - start))
-	newOffset, err := r.file.Seek(expectedOffset, 0)
+	err = r.skipPayload(expectedBytesSkipped, expectedOffset)
 	if err != nil {
-		return fmt.Errorf("error while seeking to offset %d in '%s': %w", expectedOffset, r.file.Name(), err)
+		return err
 	}
 
-	if newOffset != expectedOffset {
-		return fmt.Errorf("seeking in '%s' did not return expected offset %d, it was %d", r.file.Name(), expectedOffset, newOffset)
-	}
-
-	r.reader.Reset(r.file)
-	r.currentOffset = uint64(newOffset)
+	r.currentOffset = uint64(expectedOffset)
 	return nil
 }
 
@@ -513,12 +519,14 @@ func NewFileReader(readerOptions ...FileReaderOption) (ReaderI, error) {
 		return nil, err
 	}
 
+	_, directIO := opts.factory.(DirectIOFactory)
 	return &FileReader{
 		file:          f,
 		reader:        r,
 		open:          false,
 		closed:        false,
 		currentOffset: 0,
+		directIO:      directIO,
 	}, nil
 }
 
